@@ -221,8 +221,10 @@ int parse_instruction_avr8(AsmContext *asm_context, char *instr)
       }
         else
       {
-        //double pushback, or?
+        // Not -X, -Y or -Z: the minus sign is the start of an expression.
+        // Push it back too so that -1 + 3 is 2 and not -(1 + 3).
         tokens_push(asm_context, token, token_type);
+        tokens_push(asm_context, "-", TOKEN_SYMBOL);
 
         if (asm_context->pass == 1)
         {
@@ -237,7 +239,7 @@ int parse_instruction_avr8(AsmContext *asm_context, char *instr)
         }
 
         operands[operand_count].type = OPERAND_NUMBER;
-        operands[operand_count].value = -num;
+        operands[operand_count].value = num;
       }
     }
       else
